@@ -59,15 +59,23 @@ Definition efields_of (e : list field) (l : list (nat * string * list string)) :
    then one write: file system, registers written, external cell measures,
    target, options, external file, the tracked entries with the observed
    effects, the observed error class (None = returned). *)
-Definition wcase := (fsys * list nat * list (nat * string * list string) * target * wopts * option target
-                     * list (path * Z) * option errk)%type.
+Definition wcase := (fsys * env * list nat * list (nat * string * list string) * (rname * target) * wopts
+                     * option (rname * target) * list (path * Z) * option errk)%type.
+
+Definition target_eqb (a b : target) : bool := Z.eqb (t_name a) (t_name b) && path_eqb (t_path a) (t_path b).
+
+(* the name as given expands (Fs.expand: os.path.expandvars / expanduser / abspath) to the
+   absolute name that the harness computed with the os.path functions *)
+Definition given_ok (ev : env) (fs : fsys) (g : rname * target) : bool :=
+  target_eqb (target_of ev fs (fst g)) (snd g).
 
 Definition write_ok (e : list field) (w : wcase) : bool * bool :=
-  let '(fs, sel, efsel, x, o, ext, effs, err) := w in
+  let '(fs, ev, sel, efsel, x, o, ext, effs, err) := w in
   let fields := flat_map (fun i => match nth_error e i with Some f => [f] | None => [] end) sel in
-  let q := mkQ fields (efields_of e efsel) x ext in
-  let (fs', r) := write_model guard fs q o 1000 in
-  (match w_fault o, r, err with
+  let q := mkGQ fields (efields_of e efsel) (fst x) (option_map fst ext) in
+  let (fs', r) := write_given ev guard fs q o 1000 in
+  (given_ok ev fs x && match ext with Some g => given_ok ev fs g | None => true end &&
+   match w_fault o, r, err with
    | FLate, Some OtherErr, Some _ => true
    | _, _, _ => oerr_eqb r err
    end,
@@ -141,13 +149,27 @@ Fixpoint alloc_geo (hn : heap * nat) (l : gobs) : (heap * nat) * list gcoord :=
       (hn4, mkG a' b' c' :: r')
   end.
 
-Fixpoint alloc_all (hn : heap * nat) (l : list gobs) : (heap * nat) * list obj :=
+(* the list / count / index / bounds / interior ring variables of a construct: kind and
+   property list (key of the netCDF variable name included) *)
+Definition oobs := list (ckind * props).
+
+Fixpoint alloc_others (hn : heap * nat) (l : oobs) : (heap * nat) * list (ckind * addr) :=
   match l with
   | [] => (hn, [])
-  | g :: r =>
+  | (k, ps) :: r =>
+      let '(h, n) := hn in
+      let '(hn1, r') := alloc_others (hset h n ps, S n) r in
+      (hn1, (k, n) :: r')
+  end.
+
+Fixpoint alloc_all (hn : heap * nat) (l : list (gobs * oobs)) : (heap * nat) * list obj :=
+  match l with
+  | [] => (hn, [])
+  | (g, o) :: r =>
       let '(hn1, g') := alloc_geo hn g in
-      let '(hn2, r') := alloc_all hn1 r in
-      (hn2, mkO g' [] :: r')
+      let '(hn2, o') := alloc_others hn1 o in
+      let '(hn3, r') := alloc_all hn2 r in
+      (hn3, mkO g' o' :: r')
   end.
 
 Definition props_eqb (a b : props) : bool :=
@@ -161,17 +183,46 @@ Definition read_back (h : heap) (o : obj) : gobs :=
 
 Definition oprops_eqb := option_eqb props_eqb.
 
+Definition ckind_eqb (a b : ckind) : bool :=
+  match a, b with
+  | KList, KList | KCount, KCount | KIndex, KIndex | KBounds, KBounds | KRing, KRing | KOther, KOther => true
+  | _, _ => false
+  end.
+
+Definition read_others (h : heap) (o : obj) : oobs := map (fun ka => (fst ka, hget h (snd ka))) (o_other o).
+
+Definition oobs_eqb (a b : oobs) : bool :=
+  list_eqb (fun x y => ckind_eqb (fst x) (fst y) && props_eqb (snd x) (snd y)) a b.
+
+(* what the writer does to its copy after the copy: it names every list variable
+   (_write_list_variable: nc_set_variable; key [kname] = the netCDF variable name) *)
+Fixpoint renames (kname : Z) (l : list (ckind * addr)) (i : nat) : list instr :=
+  match l with
+  | [] => []
+  | (KList, _) :: r => ISet i kname 999 :: renames kname r (S i)
+  | _ :: r => renames kname r (S i)
+  end.
+
 Definition gobs_eqb (a b : gobs) : bool :=
   list_eqb (fun x y => let '(a1, a2, a3) := x in let '(b1, b2, b3) := y in
                        oprops_eqb a1 b1 && oprops_eqb a2 b2 && oprops_eqb a3 b3) a b.
 
-(* (before, after, cf18, raised, reached): [reached] = the write got as far as
-   writing constructs (no refusal, no option error); then a conflict predicted
-   by the model must have made the write raise, and in every case the
-   caller's lists afterwards must be the model's *)
-Definition check_ident (cs : list gobs * list gobs * bool * bool * bool) : bool :=
-  let '(before, after, cf18, raised, reached) := cs in
+(* (before, after, key of the netCDF name, cf18, raised, reached): [reached] = the write got
+   as far as writing constructs (no refusal, no option error); then a conflict predicted by
+   the model must have made the write raise, and in every case the caller's property lists
+   and component names afterwards must be the model's (i.e. what they were) *)
+Definition check_ident (cs : list (gobs * oobs) * list (gobs * oobs) * Z * bool * bool * bool) : bool :=
+  let '(before, after, kname, cf18, raised, reached) := cs in
   let '((h, n), objs) := alloc_all ([], O) before in
-  let '(h', _, err) := write_all (writer_prog cf18 []) h n objs in
+  (* one program per construct: its own list variables are named *)
+  let fix go (h : heap) (n : nat) (l : list obj) : heap * bool :=
+      match l with
+      | [] => (h, false)
+      | o :: r =>
+          let '(h', n', err) := write_all (writer_prog cf18 (renames kname (o_other o) O)) h n [o] in
+          if err then (h', true) else go h' n' r
+      end in
+  let '(h', err) := go h n objs in
   (if reached && err then raised else true)
-  && list_eqb gobs_eqb (map (read_back h') objs) after.
+  && list_eqb (fun x y => gobs_eqb (fst x) (fst y) && oobs_eqb (snd x) (snd y))
+              (map (fun o => (read_back h' o, read_others h' o)) objs) after.
